@@ -125,7 +125,8 @@ class CyclicCodeEncoder(SystematicLinearBlockCodeEncoder):
 
         # Extract the parity submatrix for systematic encoding
         k, n = self._dimension, self._length
-        parity_submatrix = generator_matrix[:, k:n] if information_set == "left" else generator_matrix[:, 0 : n - k]
+        # _generate_systematic_matrix returns [P | I_k]: the parity part is always the first n - k columns
+        parity_submatrix = generator_matrix[:, 0 : n - k]
         super().__init__(parity_submatrix=parity_submatrix, information_set=information_set, **kwargs)
 
         # Register additional buffers specific to cyclic codes
@@ -456,15 +457,8 @@ class CyclicCodeEncoder(SystematicLinearBlockCodeEncoder):
         """
         # For a systematic (n,k) code with generator matrix G = [I_k | P],
         # the check matrix is H = [P^T | I_(n-k)]
-        identity_part = torch.eye(self._redundancy, dtype=torch.float32, device=self.generator_matrix.device)
-
-        if self.information_set == "left":
-            # For 'left' information set, G = [I_k | P]
-            parity_part = self.generator_matrix[:, self._dimension :].T
-            # H = [P^T | I_m]
-            self._check_matrix = torch.cat([parity_part, identity_part], dim=1)
-        else:
-            # For 'right' information set, G = [P | I_k]
-            parity_part = self.generator_matrix[:, : self._redundancy].T
-            # H = [I_m | P^T]
-            self._check_matrix = torch.cat([identity_part, parity_part], dim=1)
+        # Columns indexed by the parity set form I_m, columns indexed by the information set form P^T
+        check_matrix = torch.zeros((self._redundancy, self._length), dtype=torch.float32, device=self.generator_matrix.device)
+        check_matrix[:, self.parity_set] = torch.eye(self._redundancy, dtype=torch.float32, device=self.generator_matrix.device)
+        check_matrix[:, self.information_set] = self.parity_submatrix.T.to(torch.float32)
+        self._check_matrix = check_matrix
